@@ -4,6 +4,7 @@ Sums over the neighbours are handled through one list of per-neighbour records w
 are the lists the model functions take (`zipWith f (l.map a) (l.map b) = l.map …`).
 -/
 import OMV.Proofs.C28RS
+import Mathlib.Tactic.LinearCombination
 
 set_option linter.unusedSectionVars false
 set_option linter.unusedVariables false
@@ -442,6 +443,8 @@ theorem dot_zipWith_krig (ystd : K) (g s e : List K) :
     | nil => simp
     | cons c cs => cases e with
       | nil => simp
-      | cons x xs => simp [ih cs xs]; ring
+      | cons x xs =>
+        simp only [List.zipWith_cons_cons, dot_cons]
+        rw [ih cs xs]; ring
 
 end OMV.C28
